@@ -6,6 +6,9 @@ import numpy as np
 def replay(spec):
     import warnings
     warnings.simplefilter("ignore")
+    if spec.get("kind") == "derivative":
+        from .C03 import replay as replay_c03
+        return replay_c03(spec)
     from scipy.integrate import solve_ivp
     from bioscrape.types import Model
     from bioscrape.simulator import py_simulate_model
@@ -29,7 +32,7 @@ def replay(spec):
         init = {"A": 2.0, "B": 1.0, "C": 3.0}
         for tp in (np.linspace(0, 2, 9), np.array([0.0, 0.1, 0.15, 0.9, 2.0])):
             M = Model(species=species, reactions=rx, initial_condition_dict=init)
-            df = py_simulate_model(tp, Model=M, stochastic=False)
+            df = py_simulate_model(tp, Model=M, stochastic=False, safe=bool(spec.get("safe")))
             order = M.get_species_list()
             sol = solve_ivp(lambda t, y: [rhs(t, dict(zip(order, y)))[s] for s in order], (tp[0], tp[-1]),
                             [init[s] for s in order], t_eval=tp, rtol=1e-11, atol=1e-12, method="LSODA")
